@@ -87,11 +87,92 @@ def p_key(a):
     return tuple(sorted(((m, c) for m, c in a.items()), key=lambda x: repr(x[0])))
 
 
+class RF:
+    """num / prod(factor^exp); unpacks / indexes as (numerator, expanded denominator)."""
+    __slots__ = ('num', 'fac', '_den')
+
+    def __init__(self, num, fac):
+        self.num = num
+        self.fac = fac
+        self._den = None
+
+    @property
+    def den(self):
+        if self._den is None:
+            d = p_const(1)
+            for k, e in self.fac.items():
+                for _ in range(e):
+                    d = p_mul_raw(d, dict(k))
+            self._den = d
+        return self._den
+
+    def __iter__(self):
+        yield self.num
+        yield self.den
+
+    def __getitem__(self, i):
+        return (self.num, self.den)[i]
+
+    def __len__(self):
+        return 2
+
+
+def exact_div(p, q):
+    """p / q if q divides p exactly (multivariate division under a lex order), else None."""
+    if not q:
+        return None
+    if p_is_const(q):
+        c = q[()]
+        return {m: v / c for m, v in p.items()}
+    atoms = set()
+    for poly in (p, q):
+        for m in poly:
+            for a, e in m:
+                atoms.add(a)
+    order = sorted(atoms, key=repr)
+    idx = {a: i for i, a in enumerate(order)}
+
+    def vec(m):
+        v = [0] * len(order)
+        for a, e in m:
+            v[idx[a]] = e
+        return tuple(v)
+
+    def mono(v):
+        return tuple(sorted(((order[i], e) for i, e in enumerate(v) if e), key=lambda x: repr(x[0])))
+    pv = {vec(m): c for m, c in p.items()}
+    qv = {vec(m): c for m, c in q.items()}
+    lq = max(qv)
+    cq = qv[lq]
+    quo = {}
+    steps = 0
+    while pv:
+        steps += 1
+        if steps > 5000:
+            return None
+        lp = max(pv)
+        d = tuple(a - b for a, b in zip(lp, lq))
+        if any(x < 0 for x in d):
+            return None
+        c = pv[lp] / cq
+        quo[d] = quo.get(d, 0) + c
+        for mv, cv in qv.items():
+            t = tuple(a + b for a, b in zip(mv, d))
+            nv = pv.get(t, 0) - c * cv
+            if nv == 0:
+                pv.pop(t, None)
+            else:
+                pv[t] = nv
+    return {mono(v): c for v, c in quo.items() if c != 0}
+
+
 class Ctx:
     """Normal-form context: which atoms are known non-negative (for sqrt extraction)."""
 
     def __init__(self, nonneg=()):
         self.nonneg = set(nonneg)
+        self.ranges = {}
+        self.assumed_positive = set()
 
     # -------------------------------------------------------------- sqrt handling
     def reduce(self, p):
@@ -178,49 +259,149 @@ class Ctx:
         return p_mul_raw(outer, p_atom(('sqrt', p_key(inner))))
 
     # -------------------------------------------------------------- rational functions
+    # An RF is num / prod(factor^exp): the denominator is kept factored and every operation
+    # cancels factors that divide the numerator exactly (multivariate exact division), so
+    # fractions stay reduced without a general polynomial gcd.
     def rf(self, num, den=None):
-        return (self.reduce(num), self.reduce(den if den is not None else p_const(1)))
+        r = RF(self.reduce(num), {})
+        if den is not None:
+            r = self._with_den(r, self.reduce(den), 1)
+        return self._cancel(r)
+
+    def _split_factor(self, p):
+        """constant * monomial * primitive remainder of a polynomial (for use as a factor)."""
+        if not p:
+            raise NotReal('zero denominator')
+        common = None
+        for m in p:
+            d = dict(m)
+            if common is None:
+                common = dict(d)
+            else:
+                for a_ in list(common):
+                    common[a_] = min(common[a_], d.get(a_, 0))
+        common = {a_: e for a_, e in (common or {}).items() if e > 0}
+        rest = {}
+        for m, c in p.items():
+            d = dict(m)
+            for a_, e in common.items():
+                d[a_] -= e
+            rest[tuple(sorted(((a_, e) for a_, e in d.items() if e), key=lambda x: repr(x[0])))] = c
+        # normalise the remainder: coefficient of the highest-degree monomial = 1, so that
+        # factors such as n - 1, n + 1, n + z^2 are the positive ones on count-like atoms
+        lead = sorted(rest.items(), key=lambda x: (sum(e for _, e in x[0]), repr(x[0])))[-1][1]
+        rest = {m: c / lead for m, c in rest.items()}
+        return lead, common, rest
+
+    def _with_den(self, r, den, exp):
+        """r / den^exp with den split into atomic factors."""
+        lead, common, rest = self._split_factor(den)
+        num = {m: c / (lead ** exp) for m, c in r.num.items()} if exp > 0 else {m: c * (lead ** (-exp)) for m, c in r.num.items()}
+        fac = dict(r.fac)
+        for a_, e in common.items():
+            k = p_key(p_atom(a_))
+            fac[k] = fac.get(k, 0) + e * exp
+        if not (p_is_const(rest)):
+            k = p_key(rest)
+            fac[k] = fac.get(k, 0) + exp
+        else:
+            c = rest.get((), Fraction(1))
+            if c != 1:
+                num = {m: v / (c ** exp) for m, v in num.items()}
+        return RF(num, {k: e for k, e in fac.items() if e != 0})
+
+    def _cancel(self, r):
+        num = r.num
+        fac = dict(r.fac)
+        # negative exponents: multiply into the numerator
+        for k, e in list(fac.items()):
+            if e < 0:
+                f = dict(k)
+                for _ in range(-e):
+                    num = p_mul_raw(num, f)
+                del fac[k]
+        num = self.reduce(num)
+        if not num:
+            return RF({}, {})
+        for k, e in list(fac.items()):
+            f = dict(k)
+            while e > 0:
+                q = exact_div(num, f)
+                if q is None:
+                    break
+                num = q
+                e -= 1
+            if e:
+                fac[k] = e
+            else:
+                del fac[k]
+        return RF(num, fac)
 
     def add(self, a, b):
-        if a[1] == b[1]:
-            return self.rf(p_add(a[0], b[0]), a[1])
-        return self.rf(p_add(p_mul_raw(a[0], b[1]), p_mul_raw(b[0], a[1])), p_mul_raw(a[1], b[1]))
+        # common denominator: max exponents
+        fac = dict(a.fac)
+        for k, e in b.fac.items():
+            fac[k] = max(fac.get(k, 0), e)
+
+        def lift(x):
+            n = x.num
+            for k, e in fac.items():
+                for _ in range(e - x.fac.get(k, 0)):
+                    n = p_mul_raw(n, dict(k))
+            return n
+        return self._cancel(RF(self.reduce(p_add(lift(a), lift(b))), fac))
 
     def neg(self, a):
-        return (p_neg(a[0]), a[1])
+        return RF(p_neg(a.num), a.fac)
 
     def sub(self, a, b):
         return self.add(a, self.neg(b))
 
     def mul(self, a, b):
-        return self.rf(p_mul_raw(a[0], b[0]), p_mul_raw(a[1], b[1]))
+        fac = dict(a.fac)
+        for k, e in b.fac.items():
+            fac[k] = fac.get(k, 0) + e
+        return self._cancel(RF(self.reduce(p_mul_raw(a.num, b.num)), fac))
 
     def div(self, a, b):
-        if p_is_zero(b[0]):
+        if p_is_zero(b.num):
             raise NotReal('division by zero')
-        return self.rf(p_mul_raw(a[0], b[1]), p_mul_raw(a[1], b[0]))
+        r = RF(a.num, dict(a.fac))
+        # multiply by b's denominator factors, divide by b's numerator
+        num = r.num
+        fac = dict(r.fac)
+        for k, e in b.fac.items():
+            fac[k] = fac.get(k, 0) - e
+        r = RF(num, fac)
+        r = self._with_den(r, b.num, 1)
+        return self._cancel(r)
 
     def sqrt(self, a):
-        # sqrt(N/D) = sqrt(N*D)/D  (D > 0 on the domain)
-        nd = self.reduce(p_mul_raw(a[0], a[1]))
-        return self.rf(self.sqrt_poly(nd), a[1])
+        # sqrt(N / prod f^e) = sqrt(N * prod f^(e mod 2)) / prod f^ceil(e/2)   (f > 0 on the domain)
+        rad = a.num
+        fac = {}
+        for k, e in a.fac.items():
+            if self.ranges:
+                sf = _poly_sign(self, dict(k), self.ranges)
+                if sf == '-':
+                    raise NotReal('denominator factor negative on the domain under a square root')
+                if sf != '+':
+                    self.assumed_positive.add(k)
+            if e % 2:
+                rad = p_mul_raw(rad, dict(k))
+            fac[k] = (e + 1) // 2
+        rad = self.reduce(rad)
+        return self._cancel(RF(self.reduce(self.sqrt_poly(rad)), fac))
 
     def equal(self, a, b):
-        d = self.reduce(p_sub(p_mul_raw(a[0], b[1]), p_mul_raw(b[0], a[1])))
-        return p_is_zero(d)
+        return self.is_zero(self.sub(a, b))
 
     def is_zero(self, a):
-        return p_is_zero(self.reduce(a[0]))
+        return p_is_zero(self.reduce(a.num))
 
     def key(self, a):
-        """Canonical-ish key of a rational function (for use inside atoms)."""
-        num, den = a
-        if p_is_const(den) and den:
-            c = den[()]
-            return ('rf', p_key({m: v / c for m, v in num.items()}), p_key(p_const(1)))
-        # normalise by the denominator's first coefficient in key order
-        lead = sorted(den.items(), key=lambda x: repr(x[0]))[0][1]
-        return ('rf', p_key({m: v / lead for m, v in num.items()}), p_key({m: v / lead for m, v in den.items()}))
+        """Canonical key of a (reduced) rational function, for use inside atoms."""
+        return ('rf', p_key(a.num), tuple(sorted(a.fac.items(), key=repr)))
 
     # -------------------------------------------------------------- terms -> rf
     def of_term(self, t):
@@ -316,15 +497,18 @@ def decide_sign(ctx, rf, ranges):
     '+', '0+', '-', '0-', '0' or None (unknown).  Method: substitute x = lo + m or x = hi - m
     (m >= 0) for every bounded atom; a polynomial whose coefficients all have one sign in
     non-negative indeterminates has that sign."""
-    sn = _poly_sign(ctx, rf[0], ranges)
+    sn = _poly_sign(ctx, rf.num, ranges)
     if sn == '0':
         return '0'
-    sd = _poly_sign(ctx, rf[1], ranges)
-    if sn is None or sd is None or sd in ('0', '0+', '0-'):
+    if sn is None:
         return None
-    if sn == '0':
-        return '0'
-    flip = sd == '-'
+    flip = False
+    for k, e in rf.fac.items():
+        sf = _poly_sign(ctx, dict(k), ranges)
+        if sf not in ('+', '-'):
+            return None
+        if sf == '-' and e % 2:
+            flip = not flip
     if not flip:
         return sn
     return {'+': '-', '-': '+', '0+': '0-', '0-': '0+'}[sn]
